@@ -113,7 +113,14 @@ def build_harness():
         except FileNotFoundError:
             pass
     shutil.copy(os.path.join(REPO, 'go.sum'), os.path.join(HARN, 'go.sum'))
-    rc, out = run(['go', 'build', '-tags', 'verif', '-o', BIN + '/', './cmd/...'], cwd=HARN, env=GOENV)
+    cmd = ['go', 'build', '-tags', 'verif', '-o', BIN + '/']
+    if os.path.realpath(REPO) != '/repo':
+        # scratch copies: same module file with the replace directive pointed at VERIF_REPO
+        mod = open(os.path.join(HARN, 'go.mod')).read().replace('=> /repo', '=> ' + os.path.realpath(REPO))
+        open(os.path.join(HARN, 'go.scratch.mod'), 'w').write(mod)
+        shutil.copy(os.path.join(REPO, 'go.sum'), os.path.join(HARN, 'go.scratch.sum'))
+        cmd.append('-modfile=go.scratch.mod')
+    rc, out = run(cmd + ['./cmd/...'], cwd=HARN, env=GOENV)
     return rc, out
 
 
@@ -140,6 +147,7 @@ def regen():
 
 
 def lake_build(targets):
+    run([sys.executable, os.path.join(ROOT, 'tools', 'gendrv.py')])
     return run(['lake', 'build'] + targets, cwd=LEAN)
 
 
@@ -185,6 +193,36 @@ def exec_lines(lines):
     rc2, vout = run([MODEL], inp='\n'.join(cases) + '\n', timeout=600)
     verd = [l for l in vout.split('\n') if l.strip()]
     return list(zip(cases, verd))
+
+
+def run_model(lines, jobs=None):
+    """run the Lean driver over the lines, split over the cores (one verdict per line, order kept)."""
+    jobs = jobs or min(16, os.cpu_count() or 4)
+    if len(lines) < 64:
+        jobs = 1
+    # balance by bytes: deal lines round-robin after sorting by size
+    order = sorted(range(len(lines)), key=lambda i: -len(lines[i]))
+    buckets = [[] for _ in range(jobs)]
+    for n, i in enumerate(order):
+        buckets[n % jobs].append(i)
+    procs = []
+    for b in buckets:
+        p = subprocess.Popen([MODEL], stdin=subprocess.PIPE, stdout=subprocess.PIPE, text=True)
+        procs.append((b, p))
+    import threading
+    outs = [None] * len(procs)
+    def feed(k, b, p):
+        outs[k] = p.communicate('\n'.join(lines[i] for i in b) + '\n')[0]
+    ths = [threading.Thread(target=feed, args=(k, b, p)) for k, (b, p) in enumerate(procs)]
+    for t in ths: t.start()
+    for t in ths: t.join()
+    verd = ['BAD missing-verdict'] * len(lines)
+    for k, (b, p) in enumerate(procs):
+        vs = [l for l in (outs[k] or '').split('\n') if l.strip()]
+        for j, i in enumerate(b):
+            if j < len(vs):
+                verd[i] = vs[j]
+    return verd
 
 
 def shrink(line, verdict, budget=120):
@@ -326,11 +364,10 @@ def main():
             if p1.returncode != 0:
                 notes.append(f'corr run {fam} exited {p1.returncode}')
                 lines.append(f'{fam} crashed=1 => out=harness-crash')
-            rc2, vout = run([MODEL], inp='\n'.join(lines) + '\n', timeout=3600)
-            verd = [l for l in vout.split('\n') if l.strip()]
-            if len(verd) != len(lines):
-                notes.append(f'driver produced {len(verd)} verdicts for {len(lines)} lines in {fam}')
-                verd += ['BAD missing-verdict'] * (len(lines) - len(verd))
+            verd = run_model(lines)
+            nmiss = sum(1 for v in verd if v == 'BAD missing-verdict')
+            if nmiss:
+                notes.append(f'driver produced no verdict for {nmiss} of {len(lines)} lines in {fam}')
             all_cases += [(fam, l, v) for l, v in zip(lines, verd)]
 
     # ---- 5 classify
